@@ -658,18 +658,31 @@ def query_rules(run, model, rule='HSM-QUERY'):
             run.inst(rule + '.match', f, 'the positive answer is set only on a match: ' + norm(n.ast), ok,
                      '' if ok else 'the query can answer True without the argument having been found on the active path', node=n.ast, obligation=True)
         run.floor('%s: positive-answer assignments' % nm, len(flagsets), 1)
-        # loop exit on IGNORED
-        breaks = [n for n in g.nodes if n.kind == 'stmt' and isinstance(n.ast, ast.Break)]
+        # the walk ends only on a match or when the outward step was answered IGNORED (top): every way out of the loop is guarded by one of the two
+        from .boolflow import must_atoms, simulate
+        breaks = [n for n in g.nodes if n.kind == 'stmt' and isinstance(n.ast, ast.Break) and n in body]
+        if not (isinstance(h.ast, ast.Constant) and bool(h.ast.value)):
+            raise AnalysisError('%s: the walk is not a `while True` loop left by break: the query rules do not apply to this shape' % nm)
         rvs = set()
+        calltxt = set()
         for n, c, txt, sigs in sites:
+            calltxt.add(norm(c))
             if isinstance(n.ast, ast.Assign) and isinstance(n.ast.targets[0], ast.Name):
                 rvs.add(n.ast.targets[0].id)
-        for b in breaks:
-            ok = any(t.kind == 'test' and any(_status_test(t, rv, 'IGNORED', (ast.Eq, ast.Is)) for rv in rvs) and guarded_by_edge(g, b, t, 'true') for t in g.nodes)
-            run.inst(rule + '.walk', f, 'the walk ends when top answers IGNORED (or on a match)', ok, 'the walk can end before top was reached', node=b.ast, obligation=True)
-        # match branch ends the walk: assigns IGNORED to the steering variable
-        ends = [n for n in g.nodes if n.kind == 'stmt' and isinstance(n.ast, ast.Assign) and status_const(n.ast.value) == 'IGNORED' and guarded_by_edge(g, n, mt, 'true')]
-        run.inst(rule + '.walk', f, 'a match ends the walk', bool(ends), 'after a match the walk continues', obligation=True)
+        cur, argn = selfn + '.temp.fun', argp
+        for b_ in breaks:
+            atoms = must_atoms(g, b_, f.node, params=f.params)
+            on_match = any((l, op, r) in atoms for (l, op, r) in ((cur, 'Eq', argn), (argn, 'Eq', cur), (cur, 'Is', argn), (argn, 'Is', cur)))
+            on_top = any(op in ('Eq', 'Is') and r.endswith('.IGNORED') and (l in rvs or l in calltxt) for (l, op, r) in atoms)
+            ok = on_match or on_top
+            run.inst(rule + '.walk', f, 'the walk ends when top answers IGNORED (or on a match)', ok, 'the walk can end before top was reached', node=b_.ast, obligation=True)
+        # a match ends the walk: from the matched branch no path (with the status locals propagated) comes back to the loop head or asks another state
+        starts_ = [m for m, l in g.succ[mt] if l == 'true']
+        outside = {n for n in g.nodes if n not in body}
+        sitenodes = [n for n, c, txt, sigs in sites]
+        res = simulate(g, starts_[0], {h} | outside, {}, track=sitenodes) if starts_ else []
+        ends_ok = bool(res) and all(stop is not h and not vis for stop, env, vis in res)
+        run.inst(rule + '.walk', f, 'a match ends the walk', ends_ok, 'after a match the walk continues', obligation=True)
         # return value
         rets = [n for n in walk_shallow(f.node) if isinstance(n, ast.Return)]
         if nm == 'is_in':
@@ -684,7 +697,17 @@ def query_rules(run, model, rule='HSM-QUERY'):
             ok = len(rets) == 1 and isinstance(rets[0].value, ast.Name)
             cvar = rets[0].value.id if ok else None
             cdefs = [n for n in g.nodes if n.kind == 'stmt' and isinstance(n.ast, ast.Assign) and any(isinstance(t, ast.Name) and t.id == cvar for t in n.ast.targets)]
-            seeds = [n for n in cdefs if dotted(n.ast.value) == selfn + '.state.fun' and n not in body]
+            def cursor_is_state_at(n_):
+                # the cursor was set to state.fun by a dominating assignment and nothing moved it since
+                for a_ in g.nodes:
+                    if a_.kind == 'stmt' and isinstance(a_.ast, ast.Assign) and any(dotted(t) == selfn + '.temp.fun' for t in a_.ast.targets) \
+                            and dotted(a_.ast.value) == selfn + '.state.fun' and g.dominates(a_, n_):
+                        movers = [m_ for m_ in g.nodes if m_ is not a_ and ((m_.kind == 'stmt' and isinstance(m_.ast, ast.Assign) and
+                                                                           any(dotted(t) == selfn + '.temp.fun' for t in m_.ast.targets)) or m_ in [x for x, _c, _t, _s in sites])]
+                        if not any(g.exists_path(a_, m_) and g.exists_path(m_, n_) for m_ in movers):
+                            return True
+                return False
+            seeds = [n for n in cdefs if n not in body and (dotted(n.ast.value) == selfn + '.state.fun' or (dotted(n.ast.value) == selfn + '.temp.fun' and cursor_is_state_at(n)))]
             steps = [n for n in cdefs if dotted(n.ast.value) == selfn + '.temp.fun' and n in body]
             okc = bool(seeds) and len(steps) == 1 and len(cdefs) == len(seeds) + len(steps)
             run.inst(rule + '.match', f, 'child is seeded with the current state and follows the cursor', okc, 'child is assigned %s' % [norm(n.ast) for n in cdefs], obligation=True)
